@@ -173,11 +173,23 @@ func (pv *Prov) of(v ssa.Value, depth int, seen map[ssa.Value]bool) *Expr {
 			case *ssa.Global:
 				return &Expr{Op: "global", Val: v, Name: a.Pkg.Pkg.Name() + "." + a.Name(), Obj: a.Object(), Type: v.Type()}
 			case *ssa.FieldAddr:
-				// field of a spilled local (e.g. a value receiver) with a single whole-value store
-				if al, ok := a.X.(*ssa.Alloc); ok {
-					if st := singleStore(al); st != nil && st.Block().Dominates(v.Block()) {
-						return &Expr{Op: "field", Val: v, Name: fieldName(a.X.Type(), a.Field), Idx: a.Field, Args: []*Expr{rec(st.Val)}, Type: v.Type()}
+				// field (possibly nested) of a spilled local with a single whole-value store
+				var valueAt func(addr ssa.Value) *Expr
+				valueAt = func(addr ssa.Value) *Expr {
+					switch ad := addr.(type) {
+					case *ssa.Alloc:
+						if st := singleStore(ad); st != nil && st.Block().Dominates(v.Block()) {
+							return rec(st.Val)
+						}
+					case *ssa.FieldAddr:
+						if base := valueAt(ad.X); base != nil {
+							return &Expr{Op: "field", Val: v, Name: fieldName(ad.X.Type(), ad.Field), Idx: ad.Field, Args: []*Expr{base}, Type: ad.Type().Underlying().(*types.Pointer).Elem()}
+						}
 					}
+					return nil
+				}
+				if e := valueAt(a); e != nil {
+					return e
 				}
 				return &Expr{Op: "field", Val: v, Name: fieldName(a.X.Type(), a.Field), Idx: a.Field, Args: []*Expr{rec(a.X)}, Type: v.Type()}
 			case *ssa.IndexAddr:
@@ -271,19 +283,33 @@ func singleStore(a *ssa.Alloc) *ssa.Store {
 		case *ssa.UnOp:
 		case *ssa.DebugRef:
 		case *ssa.FieldAddr:
-			// only loads through the field address
-			for _, rr := range *r.Referrers() {
-				switch rr.(type) {
-				case *ssa.UnOp, *ssa.DebugRef:
-				default:
-					return nil
-				}
+			// only loads through the (possibly nested) field address
+			if !onlyLoaded(r, 0) {
+				return nil
 			}
 		default:
 			return nil
 		}
 	}
 	return st
+}
+
+func onlyLoaded(fa *ssa.FieldAddr, depth int) bool {
+	if depth > 4 {
+		return false
+	}
+	for _, rr := range *fa.Referrers() {
+		switch x := rr.(type) {
+		case *ssa.UnOp, *ssa.DebugRef:
+		case *ssa.FieldAddr:
+			if !onlyLoaded(x, depth+1) {
+				return false
+			}
+		default:
+			return false
+		}
+	}
+	return true
 }
 
 func fieldName(t types.Type, i int) string {
